@@ -345,6 +345,7 @@ def _request(ctx, case, app, box, model, order, texts, rq, edits_seen):
             judge(call_app(app, env), rq['again'], want2, cands2, f' (same environ dispatched again, before as {sent_as}{"->" + method if rq.get("override") else ""})')
             ctx.count('same_environ_dispatched_again_with_another_verb')
             if rq['again'].upper() != M:
+                ctx.evals += 1          # (the second dispatch of the environ is an evaluated request of its own)
                 ctx.nontrivial(repr((desc, method, path, 'again', rq['again'])))
         # ---- classification
         nt = False
